@@ -59,10 +59,11 @@ let () =
     if not !bad then begin
       bad := true; incr mism;
       Printf.printf "MISMATCH case=%s tag=%s line=%d %s impl=%s model=%s\n" !cur_id !cur_tag !ln what (cut impl) (cut model) end in
-  let verdict (okv : bool) (what : string) (detail : string) =
+  let verdict (agrees : bool) (okv : bool) (what : string) (detail : string) =
     if not okv then begin
       let cls =
-        if class_zero_metric !chunks then Some "zero-metric-chunk"
+        if not agrees then None
+        else if class_zero_metric !chunks then Some "zero-metric-chunk"
         else if class_lone_empty_key !chunks then Some "lone-empty-key"
         else if class_key_crlf !chunks then Some "key-crlf"
         else None in
@@ -116,7 +117,7 @@ let () =
              let (mt, me) = model_obs_write !chunks in
              if e <> b2s me then mismatch "write-err" e (b2s me)
              else if t <> mt then mismatch "write-text" h (hex_of_bytes mt);
-             verdict (c18_ok_write !chunks t (e = "1")) "c18_ok_write" (Printf.sprintf "err=%s text=%s" e h)
+             verdict (e = b2s me && t = mt) (c18_ok_write !chunks t (e = "1")) "c18_ok_write" (Printf.sprintf "err=%s text=%s" e h)
          | _ -> failwith "bad W")
     | ["D"] ->
         (match split_ws rhs with
@@ -124,12 +125,12 @@ let () =
              let mf = model_obs_dump !chunks in
              if List.exists (fun f -> String.length f > 5 && String.sub f 0 6 = "EXTRA:") fs then begin
                mismatch "dump-extra-files" (String.concat " " fs) "";
-               verdict false "c18_ok_dump" ("unexpected files " ^ String.concat " " fs) end
+               verdict false false "c18_ok_dump" ("unexpected files " ^ String.concat " " fs) end
              else begin
                let files = List.map unhex fs in
                if e <> "0" then mismatch "dump-err" e "0"
                else if files <> mf then mismatch "dump-files" (String.concat " " fs) (String.concat " " (List.map hex_of_bytes mf));
-               verdict (c18_ok_dump !chunks files (e = "1")) "c18_ok_dump" (Printf.sprintf "err=%s files=%s" e (String.concat " " fs))
+               verdict (e = "0" && files = mf) (c18_ok_dump !chunks files (e = "1")) "c18_ok_dump" (Printf.sprintf "err=%s files=%s" e (String.concat " " fs))
              end
          | _ -> failwith "bad D")
     | ["V"; b] ->
@@ -142,13 +143,14 @@ let () =
         let cs0 = !chunks in
         on_done := (fun _ -> ());
         (* stash for RR *)
-        pending := List.map chunk_line mcs; pending_what := "reread-chunk bucket=" ^ b; got := [];
+        let ml = List.map chunk_line mcs in
+        pending := ml; pending_what := "reread-chunk bucket=" ^ b; got := [];
         expect_n := -1;
         on_done := (fun lines ->
             if is_stream then begin
               let back = List.map parse_chunk_line lines in
               if rt_applies cs0 then incr rt_cases;
-              verdict (c18_ok_roundtrip cs0 back (conv_err = "1") false) ("c18_ok_roundtrip bucket=" ^ b)
+              verdict (lines = ml && conv_err = b2s me) (c18_ok_roundtrip cs0 back (conv_err = "1") false) ("c18_ok_roundtrip bucket=" ^ b)
                 (Printf.sprintf "conv_err=%s reread=%s" conv_err (String.concat " | " lines)) end);
         ignore mre
     | ["RR"; b] ->
@@ -158,7 +160,7 @@ let () =
              let k = !on_done in
              if e <> "0" then begin
                mismatch ("reread-err bucket=" ^ b) e "0";
-               if !cur_tag <> "text" then verdict (not (rt_applies !chunks)) ("c18_ok_roundtrip bucket=" ^ b) "ReadChunks reports an error on the converted stream" end;
+               if !cur_tag <> "text" then verdict false (not (rt_applies !chunks)) ("c18_ok_roundtrip bucket=" ^ b) "ReadChunks reports an error on the converted stream" end;
              if int_of_string n <> List.length ml then mismatch ("reread-count bucket=" ^ b) n (string_of_int (List.length ml));
              start_chunks ("reread-chunk bucket=" ^ b) (int_of_string n) ml k
          | _ -> failwith "bad RR")
